@@ -48,13 +48,13 @@ def plan(tier, seed):
     for fam in fams:
         for impl in ('c', 'py'):
             specs.append(dict(label='%s-%s' % (fam, impl), family=fam,
-                              impl=impl, histories=10 if q else 120,
+                              impl=impl, histories=10 if q else 800,
                               seed=seed, tier=tier, variant='mon',
-                              timeout=900 if q else 3000))
+                              timeout=900 if q else 7200))
     for fam in (['OO', 'II', 'fs'] if q else fams):
         specs.append(dict(label='%s-c-asan' % fam, family=fam, impl='c',
-                          histories=8 if q else 50, seed=seed + 5, tier=tier,
-                          variant='asan', timeout=1500 if q else 3400))
+                          histories=8 if q else 200, seed=seed + 5, tier=tier,
+                          variant='asan', timeout=1500 if q else 7200))
     return specs
 
 
